@@ -3,6 +3,7 @@ package main
 // Loading of /repo (current working tree), SSA construction, naming, sorts.
 
 import (
+	"sync"
 	"fmt"
 	"go/ast"
 	"go/token"
@@ -20,23 +21,27 @@ import (
 const modPath = "github.com/snower/slock/"
 
 type Engine struct {
-	repo      string
-	fset      *token.FileSet
-	prog      *ssa.Program
-	pkgs      map[string]*packages.Package // by short name: server, protocol, client
-	spkgs     map[string]*ssa.Package
-	funcs     map[string]*ssa.Function // normalized name -> function
-	contracts map[string]*Contract
-	specFuncs map[string]*SpecFunc
-	axioms    []*Axiom
-	lemmas    []*Lemma
-	monitors  []*Monitor
-	ghosts    map[string]*GhostDecl
-	srcCache  map[string][]byte
-	typeIds   map[string]int
-	modsets   map[*ssa.Function]*ModSet
-	safeOn    bool
-	loadErrs  []string
+	repo       string
+	fset       *token.FileSet
+	prog       *ssa.Program
+	pkgs       map[string]*packages.Package // by short name: server, protocol, client
+	spkgs      map[string]*ssa.Package
+	funcs      map[string]*ssa.Function // normalized name -> function
+	contracts  map[string]*Contract
+	specFuncs  map[string]*SpecFunc
+	axioms     []*Axiom
+	lemmas     []*Lemma
+	monitors   []*Monitor
+	ghosts     map[string]*GhostDecl
+	srcCache   map[string][]byte
+	typeIds    map[string]int
+	modsets    map[*ssa.Function]*ModSet
+	universe   []string // heap-map prefixes inside which frames are tracked
+	mu         sync.Mutex
+	unresolved map[string]int
+	fieldMaps  []string
+	safeOn     bool
+	loadErrs   []string
 }
 
 func normName(s string) string {
@@ -90,6 +95,8 @@ func LoadEngine(repo string) (*Engine, error) {
 }
 
 func (e *Engine) src(file string) []byte {
+	e.mu.Lock()
+	defer e.mu.Unlock()
 	if b, ok := e.srcCache[file]; ok {
 		return b
 	}
@@ -263,15 +270,41 @@ type structInfo struct {
 // ---------------------------------------------------------------- modsets
 
 type ModSet struct {
-	All  bool
-	Maps map[string]bool
+	All    bool
+	Except []string // when All: heap-map prefixes that are nevertheless preserved
+	Maps   map[string]bool
+}
+
+func intersectPats(a, b []string) []string {
+	var out []string
+	for _, x := range a {
+		for _, y := range b {
+			if strings.HasPrefix(x, y) {
+				out = append(out, x)
+				break
+			} else if strings.HasPrefix(y, x) {
+				out = append(out, y)
+				break
+			}
+		}
+	}
+	return out
 }
 
 func (m *ModSet) add(o *ModSet) bool {
 	ch := false
-	if o.All && !m.All {
-		m.All = true
-		ch = true
+	if o.All {
+		if !m.All {
+			m.All = true
+			m.Except = append([]string{}, o.Except...)
+			ch = true
+		} else {
+			n := intersectPats(m.Except, o.Except)
+			if len(n) != len(m.Except) {
+				ch = true
+			}
+			m.Except = n
+		}
 	}
 	for k := range o.Maps {
 		if !m.Maps[k] {
@@ -309,4 +342,113 @@ func isInRepo(fn *ssa.Function) bool {
 		return fn != nil && strings.Contains(fn.String(), modPath)
 	}
 	return strings.HasPrefix(fn.Pkg.Pkg.Path(), strings.TrimSuffix(modPath, "/"))
+}
+
+// patternPrefix turns "server.Lock.*" / "Lock.*" (pkg relative) / "elems(T)" / raw prefixes into heap-map name prefixes
+func patternPrefix(pkg, pat string) string {
+	pat = strings.TrimSpace(pat)
+	if pat == "*" {
+		return "*"
+	}
+	if strings.HasPrefix(pat, "F_") || strings.HasPrefix(pat, "E_") || strings.HasPrefix(pat, "C_") || strings.HasPrefix(pat, "MH_") || strings.HasPrefix(pat, "MV_") || strings.HasPrefix(pat, "M?_") || strings.HasPrefix(pat, "G_") {
+		return pat
+	}
+	if strings.HasPrefix(pat, "elems(") {
+		return "E_" + sanitize(strings.TrimSuffix(strings.TrimPrefix(pat, "elems("), ")"))
+	}
+	if strings.HasPrefix(pat, "map(") {
+		return "M?_" + sanitize(strings.TrimSuffix(strings.TrimPrefix(pat, "map("), ")"))
+	}
+	parts := strings.Split(pat, ".")
+	switch len(parts) {
+	case 2: // Type.* or Type.field
+		t := parts[0]
+		if pkg != "" {
+			t = pkg + "." + t
+		}
+		if parts[1] == "*" {
+			return "F_" + sanitize(t) + "_"
+		}
+		return "F_" + sanitize(t) + "_" + parts[1]
+	case 3:
+		if parts[2] == "*" {
+			return "F_" + sanitize(parts[0]+"."+parts[1]) + "_"
+		}
+		return "F_" + sanitize(parts[0]+"."+parts[1]) + "_" + parts[2]
+	}
+	return pat
+}
+
+func (e *Engine) inUniverse(m string) bool {
+	if len(e.universe) == 0 {
+		return true
+	}
+	for _, u := range e.universe {
+		if strings.HasPrefix(m, u) || (strings.HasPrefix(u, "M?_") && (strings.HasPrefix(m, "MH_"+u[3:]) || strings.HasPrefix(m, "MV_"+u[3:]))) {
+			return true
+		}
+	}
+	return false
+}
+
+// do the preserve patterns cover the whole universe?
+func (e *Engine) coversUniverse(pats []string) bool {
+	for _, u := range e.universe {
+		ok := false
+		for _, p := range pats {
+			if p == "*" || strings.HasPrefix(u, p) {
+				ok = true
+				break
+			}
+		}
+		if !ok {
+			return false
+		}
+	}
+	return true
+}
+
+// all field heap maps of the repository's struct types
+func (e *Engine) allFieldMaps() []string {
+	e.mu.Lock()
+	defer e.mu.Unlock()
+	if e.fieldMaps != nil {
+		return e.fieldMaps
+	}
+	for _, p := range e.pkgs {
+		scope := p.Types.Scope()
+		for _, n := range scope.Names() {
+			tn, ok := scope.Lookup(n).(*types.TypeName)
+			if !ok {
+				continue
+			}
+			st, ok := tn.Type().Underlying().(*types.Struct)
+			if !ok {
+				continue
+			}
+			for i := 0; i < st.NumFields(); i++ {
+				e.fieldMaps = append(e.fieldMaps, fieldMapName(tn.Type(), i))
+			}
+		}
+	}
+	sort.Strings(e.fieldMaps)
+	return e.fieldMaps
+}
+
+// universe prefixes not covered by the preserve patterns
+func (e *Engine) uncovered(pats []string) []string {
+	var out []string
+	for _, u := range e.universe {
+		ok := false
+		for _, p := range pats {
+			if p == "*" || strings.HasPrefix(u, p) {
+				ok = true
+				break
+			}
+		}
+		if !ok {
+			out = append(out, u)
+		}
+	}
+	return out
 }
